@@ -108,7 +108,9 @@ def _mgr_case(rng, size, tf, fill, ha, life, extra_passes=False, malformed=False
     head = f"tf={tf or '-'} fill={int(fill)} ha={int(ha)} life={'-' if life is None else life}"
     lines = [f"mgr {head} " + wire.enc_candles(parts[0]), "msnap"]
     for p in parts[1:]:
-        lines.append("mapp " + wire.enc_candles(p))
+        enc = rng.choice(["candle", "candle", "dict", "list", "tlist"])
+        single = int(len(p) == 1 and rng.random() < 0.5)
+        lines.append(f"mapp enc={enc} single={single} " + wire.enc_candles(p))
         lines.append("msnap")
         if extra_passes and rng.random() < 0.3:
             for _ in range(rng.randint(1, 3)):
@@ -181,7 +183,9 @@ def _ind_case(rng, size, spec, programs=False, mgr=True):
     parts = gen.split_by(stream, sched)
     lines = [f"ind {specs.spec_params(spec)} " + wire.enc_candles(parts[0]), "icalc", "isnap"]
     for p in parts[1:]:
-        lines.append("iapp " + wire.enc_candles(p))
+        enc = rng.choice(["candle", "candle", "candle", "dict", "list", "tlist"])
+        single = int(len(p) == 1 and rng.random() < 0.5)
+        lines.append(f"iapp enc={enc} single={single} " + wire.enc_candles(p))
         lines.append("isnap")
         if programs and rng.random() < 0.3:
             k = rng.random()
@@ -265,7 +269,7 @@ def gen_hexital(rng, size, ha_ok=False, life_ok=False, programs=True, enc=None):
     stream, meta = gen.gen_stream(rng, n, step=max(1, base_step // rng.choice([1, 1, 2, 5])))
     sched, shape = gen.gen_schedule(rng, n)
     parts = gen.split_by(stream, sched)
-    enc = enc or rng.choice(["candle", "dict", "list"])
+    enc = enc or rng.choice(["candle", "dict", "list", "tlist"])
     ha = ha_ok and rng.random() < 0.3
     life = base_step * rng.randint(5, 60) if (life_ok and rng.random() < 0.3) else None
     lines = []
@@ -283,7 +287,7 @@ def gen_hexital(rng, size, ha_ok=False, life_ok=False, programs=True, enc=None):
     lines += ["hcalc", "hsnap"]
     names = []
     for p in parts[1:]:
-        lines.append(f"happ enc={enc} " + wire.enc_candles(p))
+        lines.append(f"happ enc={enc} single={int(len(p) == 1 and rng.random() < 0.5)} " + wire.enc_candles(p))
         lines.append("hsnap")
         if programs and rng.random() < 0.25:
             lines.append("hacc names")
